@@ -2,7 +2,6 @@ package props
 
 import (
 	"net/url"
-	"path"
 	"sort"
 	"strings"
 
@@ -15,19 +14,29 @@ import (
 
 // C10 — client URLs. Streams (all through client.Runtime.CreateHttpRequest):
 //
-//	P <joined path> <pattern path> <param names> <param values> [<base> <pattern>] => <escaped path>
-//	Q <base keys> <base vals> <pattern keys> <pattern vals> <caller keys> <caller vals> => <keys> <vals>
+//	P <host> <Runtime.BasePath> <pattern> <param names> <param values> <caller keys> <caller vals> => ERR | <request URL, 14 fields>
+//	Q <base keys> <base vals> <pattern keys> <pattern vals> <caller keys> <caller vals> => <keys> <vals> <RawQuery>
 //	S <runtime schemes> <operation schemes> => <scheme>
 //	E <p|q> <bytes> => <escaped> <ok:unescaped|err>         (validates the hand-copied net/url tables)
+//	U <bytes> => ERR | <url.Parse result, 14 fields>         (validates the hand model of url.Parse)
 //
-// For P the harness computes url.Parse(..).Path and path.Join (stdlib) and passes them to the model
-// as inputs; base path and pattern travel along so that a case can be re-executed.
+// Nothing is computed for the model on the Go side: P hands over the raw strings the runtime holds
+// and reports every field of the URL of the request CreateHttpRequest returns.
 func init() {
 	proto.Register(&proto.Prop{ID: "C10", Gen: c10Gen, Exec: c10Exec, Corpus: [][]string{
 		// F10a (known finding): an empty value in the first segment makes the path start with "//"
-		{"P", proto.B("/{a}/pets"), proto.B("/{a}/pets"), proto.L([]string{"a"}), proto.L([]string{""}), proto.B(""), proto.B("/{a}/pets")},
+		{"P", proto.B(c10Host), proto.B("/"), proto.B("/{a}/pets"), proto.L([]string{"a"}), proto.L([]string{""}), ".", "."},
+		// the same class, refused by http.NewRequest / read as user info
+		{"P", proto.B(c10Host), proto.B("/"), proto.B("/{a}/{b}"), proto.L([]string{"a", "b"}), proto.L([]string{"", "{i}"}), ".", "."},
+		{"P", proto.B(c10Host), proto.B("/"), proto.B("/{a}/{b}/pets"), proto.L([]string{"a", "b"}), proto.L([]string{"", "u@h"}), ".", "."},
+		// not in the class: three slashes are a path
+		{"P", proto.B(c10Host), proto.B("/"), proto.B("/{a}/{b}/pets"), proto.L([]string{"a", "b"}), proto.L([]string{"", ""}), ".", "."},
+		// F10b (known finding): static text that net/url escapes makes EscapedPath() forget the value's escapes
+		{"P", proto.B(c10Host), proto.B("/"), proto.B("/\xc3\xa9/{a}"), proto.L([]string{"a"}), proto.L([]string{"x/y"}), ".", "."},
 	}})
 }
+
+const c10Host = "example.test"
 
 type c10Writer struct {
 	path  [][2]string
@@ -91,28 +100,23 @@ func c10Query(vs [][]string) string {
 func c10Exec(in []string) []string {
 	switch in[0] {
 	case "P":
-		names, vals := proto.UnL(in[3]), proto.UnL(in[4])
-		base, pattern := proto.UnB(in[5]), proto.UnB(in[6])
-		w := c10Writer{}
+		host, base, pattern := proto.UnB(in[1]), proto.UnB(in[2]), proto.UnB(in[3])
+		names, vals := proto.UnL(in[4]), proto.UnL(in[5])
+		w := c10Writer{query: c10ParseValues(in[6], in[7])}
 		for i := range names {
 			w.path = append(w.path, [2]string{names[i], vals[i]})
 		}
 		// rebuild several times: Go's map iteration order varies from run to run
 		var first string
 		for k := 0; k < 4; k++ {
-			rt := client.New("example.test", base, []string{"http"})
+			rt := client.New(host, "/", []string{"http"})
+			rt.BasePath = base // what the Runtime holds (client.New's normalisation is applied by the generator)
 			req, err := rt.CreateHttpRequest(&runtime.ClientOperation{ID: "op", Method: "GET", PathPattern: pattern, Params: w})
 			var got string
 			if err != nil {
 				got = "ERR"
 			} else {
-				// the string handed to http.NewRequest: url.Parse keeps it in RawPath unless it is
-				// the default encoding of Path
-				orig := req.URL.RawPath
-				if orig == "" {
-					orig = req.URL.EscapedPath()
-				}
-				got = proto.B(orig) + " " + proto.Bool(orig == req.URL.EscapedPath())
+				got = strings.Join(c10URL(req.URL, nil), " ")
 			}
 			if k == 0 {
 				first = got
@@ -137,7 +141,7 @@ func c10Exec(in []string) []string {
 			return []string{"ERR", proto.B(err.Error())}
 		}
 		k, v := c10Values(req.URL.Query())
-		return []string{k, v}
+		return []string{k, v, proto.B(req.URL.RawQuery)}
 	case "S":
 		rt := client.New("example.test", "/", proto.UnL(in[1]))
 		req, err := rt.CreateHttpRequest(&runtime.ClientOperation{ID: "op", Method: "GET", PathPattern: "/x", Schemes: proto.UnL(in[2]), Params: c10Writer{}})
@@ -145,6 +149,8 @@ func c10Exec(in []string) []string {
 			return []string{"ERR", proto.B(err.Error())}
 		}
 		return []string{proto.B(req.URL.Scheme)}
+	case "U":
+		return c10URL(url.Parse(proto.UnB(in[1])))
 	case "E":
 		s := proto.UnB(in[2])
 		var esc, un string
@@ -162,6 +168,60 @@ func c10Exec(in []string) []string {
 		return []string{proto.B(esc), "ok:" + proto.B(un)}
 	}
 	panic("C10: unknown stream")
+}
+
+// c10URL prints every field of a parsed URL (the model prints the same line).
+func c10URL(u *url.URL, err error) []string {
+	if err != nil {
+		return []string{"ERR"}
+	}
+	user := []string{"0", "-", "-"}
+	if u.User != nil {
+		if pw, ok := u.User.Password(); ok {
+			user = []string{"2", proto.B(u.User.Username()), proto.B(pw)}
+		} else {
+			user = []string{"1", proto.B(u.User.Username()), "-"}
+		}
+	}
+	out := []string{proto.B(u.Scheme), proto.B(u.Opaque)}
+	out = append(out, user...)
+	return append(out, proto.B(u.Host), proto.B(u.Path), proto.B(u.RawPath), proto.B(u.EscapedPath()), proto.Bool(u.ForceQuery),
+		proto.B(u.RawQuery), proto.B(u.Fragment), proto.B(u.RawFragment), proto.Bool(u.OmitHost))
+}
+
+const c10URLAlphabet = "////%%%abcdefxyz0123456789AF{}:*;,=+ ?#..@[]!$&'()<>\"|^`~-_\\\x00\x1f\x7f\x80\xc3\xa9\xff"
+
+// c10RawURL: a string for stream U — random bytes, or a structured URL with noise.
+func c10RawURL(r *proto.Rng) string {
+	switch r.Intn(8) {
+	case 0, 1:
+		return r.Bytes(c10URLAlphabet, r.Intn(12))
+	case 2:
+		return r.Bytes("/%2Fa5:@[].?#", r.Intn(10))
+	case 3:
+		// authority forms
+		host := r.Pick("h", "h.example", "[::1]", "[fe80::1%25en0]", "[fe80::1%25e%20n]", "[x", "[x]y", "h:80", "h:", "h:8x", "%41", "%C3%A9", "a%2520b", "é", "a b", "h<>", "", "u@h", "u:p@h", "u:p:q@h:1", "a@b@c", "%zz@h", "u%40@h", "[::1]:80", "[::1%25%41]", "[::1%25%7F]")
+		return r.Pick("//", "http://", "HTTP://", "x+y://", "///", "////", "/") + host + r.Pick("", "/", "/p", "/p%2Fq", "//p", "?q", "#f", "/p?q#f")
+	case 4:
+		// scheme forms
+		return r.Pick("http:", "a:", "a1+.-:", "1a:", ":", "a_b:", "É:", "") + r.Bytes("/ab:%2?#", r.Intn(8))
+	default:
+		// path-like strings as the client builds them
+		n := 1 + r.Intn(4)
+		var sb strings.Builder
+		for i := 0; i < n; i++ {
+			sb.WriteString(r.Pick("/", "/", "/", "//", ""))
+			switch r.Intn(5) {
+			case 0:
+				sb.WriteString(url.PathEscape(c10Value(r)))
+			case 1:
+				sb.WriteString(r.Pick("{id}", "é", "a b", "a'b", "a!b", "(x)", "a:b", "a@b", "%2F", "%zz", "%", "a?b", "a#b", "*", "a?", "?", "#"))
+			default:
+				sb.WriteString(r.Pick("pets", "store", "a", "b.c", "x_y", ".", "..", ""))
+			}
+		}
+		return sb.String()
+	}
 }
 
 func c10Name(r *proto.Rng) string {
@@ -187,13 +247,36 @@ func c10Gen(r *proto.Rng, n int, tier string, emit func(in ...string)) {
 		emit("E", "p", proto.B(string([]byte{byte(c)})))
 		emit("E", "q", proto.B(string([]byte{byte(c)})))
 	}
+	for _, s := range []string{"", "*", "/", "//", "///", "?", "#", "//?#", "/a?", "/a?b?", "%2A", "/%2A", "//pets", "//x@y:80/p"} {
+		emit("U", proto.B(s))
+	}
 	for i := 0; i < n; i++ {
+		if i%4 == 3 {
+			emit("U", proto.B(c10RawURL(r)))
+			continue
+		}
 		switch {
 		case i%10 < 6:
 			// pattern from tokens
 			nseg := 1 + r.Intn(4)
 			var sb strings.Builder
 			var names []string
+			static := func() string {
+				switch r.Intn(12) {
+				case 0:
+					// static text net/url keeps as written although it would escape it itself (RawPath is set)
+					return r.Pick("a'b", "a!b", "(x)", "x*", "[1]", "a:b", "a@b", "a;b", "a,b", "x=1", "$x", "a&b", "a+b", "~u")
+				case 1:
+					if r.Chance(1, 2) {
+						// static text net/url must escape: known finding F10b when a value carries a '/'
+						return r.Pick("é", "a b", "a\"b", "<x>", "a|b", "a^b", "a`b", "a\\b")
+					}
+					// dot segments and already-escaped static text (read as odd input by the driver)
+					return r.Pick(".", "..", "a%2Fb", "%41", "a%zz", "a%3Fb", "a%23b", "50%25")
+				default:
+					return r.Pick("pets", "store", "a", "b.c", "x_y", "v1", "A-Z")
+				}
+			}
 			for s := 0; s < nseg; s++ {
 				sb.WriteByte('/')
 				switch r.Intn(6) {
@@ -204,30 +287,53 @@ func c10Gen(r *proto.Rng, n int, tier string, emit func(in ...string)) {
 				case 3:
 					nm := c10Name(r)
 					names = append(names, nm)
-					sb.WriteString(r.Pick("v", "x-", "") + "{" + nm + "}" + r.Pick(".json", "", "-z"))
+					sb.WriteString(r.Pick("v", "x-", "", "") + "{" + nm + "}" + r.Pick(".json", "", "-z", ""))
+					if r.Chance(1, 6) {
+						nm2 := c10Name(r)
+						names = append(names, nm2)
+						sb.WriteString(r.Pick("", "-", ":") + "{" + nm2 + "}")
+					}
 				default:
-					sb.WriteString(r.Pick("pets", "store", "a", "b.c", "x_y"))
+					sb.WriteString(static())
 				}
 			}
 			pattern := sb.String()
 			if r.Chance(1, 4) {
 				pattern += "/"
 			}
+			if r.Chance(1, 12) {
+				pattern = strings.TrimPrefix(pattern, "/") // pattern without the leading slash
+			}
 			if r.Chance(1, 25) {
-				pattern = r.Pick("/a/{b{c}d}", "/{a}{b}", "/}{", "/{a/{b}", "/x/{}") // odd patterns
+				pattern = r.Pick("/a/{b{c}d}", "/{a}{b}", "/}{", "/{a/{b}", "/x/{}", "/{a}/{a/b}", "", "/", "//", "//x/{a}", "x:y/{a}", "./x:y/{a}", "/{a}#f") // odd patterns
 				names = append(names, "a", "b", "c")
 			}
-			base := r.Pick("/", "", "/api", "/api/", "api", "/v1/base", "/api?x=1")
+			if r.Chance(1, 8) {
+				pattern += r.Pick("?x=1", "?y=2&y=3", "?", "?a%20b=c+d&x", "?x=1#frag", "?x=%zz&y=2;z")
+			}
+			base := r.Pick("/", "/", "", "", "/api", "/api/", "api", "/v1/base", "/api?x=1", "/a//b/", "/api/../v2", "/é", "/a'b", "?z=9")
+			if r.Chance(1, 40) {
+				base = r.Pick("//h/b", "http://h/b?x=1", "//h", "/b%2Fc", "/b#f", "/a b", "h:80/b", "/%zz")
+			}
+			// client.New's normalisation: what the Runtime holds is what the model starts from
+			base = client.New(c10Host, base, nil).BasePath
+			if r.Chance(1, 40) {
+				base = r.Pick("", "api", "?x=1") // Runtime.BasePath set directly by the caller
+			}
 			// parameters: the pattern's names (possibly some missing / extra), distinct keys
 			seen := map[string]bool{}
 			var ns, vs []string
 			for _, nm := range names {
-				if seen[nm] || r.Chance(1, 10) {
+				if seen[nm] || r.Chance(1, 12) {
 					continue
 				}
 				seen[nm] = true
 				ns = append(ns, nm)
-				vs = append(vs, c10Value(r))
+				if r.Chance(1, 6) {
+					vs = append(vs, "") // the empty value: F10a when it empties the first segment
+				} else {
+					vs = append(vs, c10Value(r))
+				}
 			}
 			if r.Chance(1, 8) {
 				nm := r.Pick("zz", "bXd", "aXc")
@@ -236,14 +342,23 @@ func c10Gen(r *proto.Rng, n int, tier string, emit func(in ...string)) {
 					vs = append(vs, c10Value(r))
 				}
 			}
-			// client.New normalises the base path; the model starts from what the Runtime holds
-			bu, err1 := url.Parse(client.New("example.test", base, nil).BasePath)
-			pu, err2 := url.Parse(pattern)
-			if err1 != nil || err2 != nil {
-				continue
+			// the caller's query parameters
+			ck, cv := ".", "."
+			if r.Chance(1, 4) {
+				v := url.Values{}
+				for j, nk := 0, 1+r.Intn(2); j < nk; j++ {
+					k := r.Pick("x", "y", "z", "a b", "é", "k&=")
+					v.Del(k)
+					for l, nv := 0, r.Intn(3); l < nv; l++ {
+						v.Add(k, r.Pick("1", "2", "", "p q", "a&b=c", "é", "50%", "a+b"))
+					}
+					if len(v[k]) == 0 {
+						v[k] = []string{} // set, without a value
+					}
+				}
+				ck, cv = c10Values(v)
 			}
-			joined := path.Join(bu.Path, pu.Path)
-			emit("P", proto.B(joined), proto.B(pu.Path), proto.L(ns), proto.L(vs), proto.B(base), proto.B(pattern))
+			emit("P", proto.B(c10Host), proto.B(base), proto.B(pattern), proto.L(ns), proto.L(vs), ck, cv)
 		case i%10 < 9:
 			mk := func() (string, string) {
 				nk := r.Intn(3)
